@@ -29,6 +29,7 @@ type c18Payload struct {
 	Pos   int    `json:"corrupt_pos"` // -1: forward case
 	Val   int    `json:"corrupt_val"`
 	InQ   string `json:"in_quoted"`
+	Entry string `json:"entry,omitempty"`
 }
 
 var c18Names = []string{strings.Repeat("d", 60) + "/gpkg-1/" + strings.Repeat("f", 70), "dir/gpkg-1/" + strings.Repeat("g", 95), "BZhang/report.doc", "xar!/readme", "wOFF/font", "\x1f\x8b.gz", "Rar!/x", "fLaC", "a.txt", "dir/", "src/main.go", "README", "ü/ö.txt", "日本語.txt", "PK\x03\x04.bin", "%PDF-1.4.pdf", "MZ", "\x7fELF", "GIF89a", "ID3", "BM", "long/" + strings.Repeat("n", 90), strings.Repeat("p/", 60) + "deep.txt", strings.Repeat("x", 100), strings.Repeat("y", 101), "portage/gpkg-1.0.3/README", "a/gpkg-1x", "gpkg-1", "x/gpkg-2", " lead", "trail ", "-dash", "#hash", "{\"a\":1}", "<html>", "name with spaces.tar"}
@@ -135,11 +136,12 @@ func hasHigh(b []byte) bool {
 func c18Forward(c *fw.Ctx, t *lib.Tree, kind string, a []byte, tag string) bool {
 	good := true
 	for _, lim := range []uint32{0, 3072, 512, uint32(len(a)), uint32(len(a) + 1)} {
-		p := c18Payload{Kind: kind, In: a, Limit: lim, Pos: -1, InQ: fw.Quote(a[:minInt(len(a), 110)], 110)}
-		key := fw.InputKey(a, lim, "Detect")
+		entry := pickEntry(c)
+		p := c18Payload{Kind: kind, In: a, Limit: lim, Pos: -1, InQ: fw.Quote(a[:minInt(len(a), 110)], 110), Entry: entry}
+		key := fw.InputKey(a, lim, entry)
 		c.Trace(func() (string, any) { return key, p })
 		var ch lib.Chain
-		if !c.Guard(key, func() any { return p }, func() { ch = lib.ChainOf(lib.Detect(a, lim)) }) {
+		if !c.Guard(key, func() any { return p }, func() { ch = lib.ChainOf(detectEntry(a, lim, entry)) }) {
 			continue
 		}
 		c.Eval(1)
@@ -296,6 +298,7 @@ func init() {
 				fmt.Println("bad payload:", err)
 				return
 			}
+			forcedEntry = p.Entry
 			if p.Pos < 0 {
 				c18Forward(c, baseTree(), p.Kind, p.In, "replay")
 				return
